@@ -48,7 +48,7 @@ func cmdVerify(args []string) {
 	}
 	var results []*FuncResult
 	for _, ct := range cs.List {
-		if ct.Fn == nil {
+		if ct.Fn == nil || ct.Trusted {
 			continue
 		}
 		match := len(names) == 0
